@@ -92,6 +92,7 @@ class Gen:
         self.lru = []
         self.area_hist, self.swath_hist, self.stack_hist = [], [], []
         self.gah = []
+        self.nonjson, self.njmeta = [], []
 
     def add(self, g, **meta):
         self.geos.append(g)
@@ -356,6 +357,34 @@ class Gen:
                 self.keys.append([0, 0, a, 0, 0, b])
                 self.kmeta.append({"mode": "kw_falsy"})
                 self.ctx.count("key_kw_falsy_fixed")
+
+    def nonjson_keys(self):
+        """Keyword values JSON cannot encode, in pairs of DISTINCT values (large arrays differing only in the interior, small
+        arrays, boolean masks, DataArrays, numpy scalars, CRS objects, lists of arrays) and pairs of EQUAL values rebuilt."""
+        r, ctx = self.r, self.ctx
+        self.nonjson, self.njmeta = [], []
+        for _ in range(ctx.n(24, 120)):
+            cls = r.choice(["np_big", "np_big", "xr_big", "mask_big", "np_1d", "np_small", "f32", "i64", "crs", "list_np"])
+            name = r.choice(["mask", "weights", "fill_value", "sigmas"])
+            if cls in ("np_big", "xr_big", "mask_big", "np_1d", "np_small"):
+                shape = {"np_1d": [r.randint(1500, 3000)], "np_small": [3, 3]}.get(cls, [r.randint(34, 60), r.randint(34, 60)])
+                k = {"xr_big": "xr", "mask_big": "mask"}.get(cls, "np")
+                idx = [r.randint(5, n - 6) if n > 12 else r.randrange(n) for n in shape]
+                va = {"k": k, "shape": shape}
+                vb = {"k": k, "shape": shape, "poke": [[idx, -5.5]]}
+            elif cls == "f32":
+                va, vb = {"k": "f32", "v": 1.5}, {"k": "f32", "v": r.choice([2.5, 1.5000001192092896])}
+            elif cls == "i64":
+                va, vb = {"k": "i64", "v": 3}, {"k": "i64", "v": r.choice([4, -3])}
+            elif cls == "crs":
+                va, vb = {"k": "crs", "v": "EPSG:4326"}, {"k": "crs", "v": r.choice(["EPSG:4269", "+proj=laea +lat_0=50 +lon_0=10"])}
+            else:
+                va = {"k": "list_np", "items": [{"k": "np", "shape": [40, 40]}]}
+                vb = {"k": "list_np", "items": [{"k": "np", "shape": [40, 40], "poke": [[[20, 21], 7.25]]}]}
+            same = r.random() < 0.2
+            self.nonjson.append([0, 0, name, va, va if same else vb])
+            self.njmeta.append({"cls": cls, "same": same})
+            ctx.count("key_nonjson_%s%s" % (cls, "_same" if same else ""))
 
     def gah_trees(self):
         """Array trees for get_array_hashable: numpy (plain / masked) and dask leaves, bare or wrapped in a DataArray with or
@@ -644,7 +673,7 @@ class Gen:
                          "(numpy; xarray over dask) and over {hash, ==, full slice, partial slice, copy} on a 46x48 area (PROJ string; EPSG:3857)" % L)
 
     def payload(self):
-        return {"geos": self.geos, "pairs": self.pairs, "keys": self.keys, "kwargs": KWARGS, "lru": self.lru, "gah": self.gah,
+        return {"geos": self.geos, "pairs": self.pairs, "keys": self.keys, "kwargs": KWARGS, "lru": self.lru, "gah": self.gah, "nonjson": self.nonjson,
                 "area_hist": self.area_hist, "swath_hist": self.swath_hist,
                 "stack_hist": [{k: v for k, v in c.items() if k in ("init", "ops", "eq_fresh")} for c in self.stack_hist]}
 
@@ -767,6 +796,9 @@ def sub_payload(g, kind, idx):
         c = g.stack_hist[idx]
         for i in c["members"]:
             use(i)
+    elif kind == "nonjson":
+        use(g.nonjson[idx][0])
+        use(g.nonjson[idx][1])
     mp = {old: new for new, old in enumerate(need)}
     geos = []
     for old in need:
@@ -782,6 +814,10 @@ def sub_payload(g, kind, idx):
         s1, t1, k1, s2, t2, k2 = g.keys[idx]
         p["keys"] = [[mp[s1], mp[t1], k1, mp[s2], mp[t2], k2]]
         p["kmeta"] = [g.kmeta[idx]]
+    elif kind == "nonjson":
+        c = g.nonjson[idx]
+        p["nonjson"] = [[mp[c[0]], mp[c[1]]] + c[2:]]
+        p["njmeta"] = [g.njmeta[idx]]
     elif kind == "area_hist":
         c = g.area_hist[idx]
         p["area_hist"] = [{"start": mp[c["start"]], "ops": [[op[0], mp[op[1]]] if op[0] == "eq" else op for op in c["ops"]]}]
@@ -804,10 +840,11 @@ class PGen:
         self.pairs, self.pmeta = p.get("pairs", []), p.get("pmeta", [])
         self.keys, self.kmeta = p.get("keys", []), p.get("kmeta", [])
         self.lru = []
+        self.nonjson, self.njmeta = p.get("nonjson", []), p.get("njmeta", [])
         self.area_hist, self.swath_hist, self.stack_hist = p.get("area_hist", []), p.get("swath_hist", []), p.get("stack_hist", [])
 
     def payload(self):
-        return {"geos": self.geos, "pairs": self.pairs, "keys": self.keys, "kwargs": KWARGS, "lru": [],
+        return {"geos": self.geos, "pairs": self.pairs, "keys": self.keys, "kwargs": KWARGS, "lru": [], "nonjson": self.nonjson,
                 "area_hist": self.area_hist, "swath_hist": self.swath_hist,
                 "stack_hist": [{k: v for k, v in c.items() if k in ("init", "ops", "eq_fresh")} for c in self.stack_hist]}
 
@@ -844,6 +881,21 @@ def oracle(g, obs):
         grels = {k: v for k, v in rels.items() if k != "hash_dict"}      # hash_dict alone does not see the geometries
         if km["mode"] in ("src", "tgt") and any(grels.values()):
             res.append(("C12.key.geometry", "a different %s geometry gives the same cache key (%s)" % (km["mode"], grels), "key", idx))
+    for idx, (c, km, r) in enumerate(zip(getattr(g, "nonjson", []), getattr(g, "njmeta", []), obs.get("nonjson", []))):
+        if "error" in r:
+            res.append(("C12.key.error", "building non-JSON keyword values raised %s %s" % (r["error"], r.get("msg")), "nonjson", idx))
+            continue
+        for ep in r["a"]:
+            ka, kb = r["a"][ep].get("key"), r["b"][ep].get("key")
+            if ka is None or kb is None:
+                continue        # a loud error (TypeError: not JSON serializable) is an acceptable answer
+            if not km["same"] and ka == kb:
+                res.append(("C12.key.kwargs.nonjson", "keyword %s=%s vs %s (distinct values) give the same cache key through %s"
+                            % (c[2], json.dumps(c[3]), json.dumps(c[4]), ep), "nonjson", idx))
+                break
+            if km["same"] and ka != kb:
+                res.append(("C12.key.kwargs.nonjson_same", "keyword %s=%s built twice gives two cache keys through %s" % (c[2], json.dumps(c[3]), ep), "nonjson", idx))
+                break
     for idx, (c, steps) in enumerate(zip(g.area_hist, obs["area_hist"])):
         rt = obs["rt"]
         for n, (op, r) in enumerate(zip(c["ops"], steps)):
@@ -1149,6 +1201,7 @@ def run(ctx):
     g = Gen(ctx)
     g.areas()
     g.falsy_keys()
+    g.nonjson_keys()
     g.gah_trees()
     g.f32_tiny()
     g.swaths()
@@ -1180,6 +1233,8 @@ def evaluate(ctx, g, obs, record=False):
             ctx.count("pair_%s_%s_%s" % (g.geos[i]["t"], pm["cls"], pm["what"].split("_")[0] if pm["cls"] == "ident" else pm["what"]))
             if pm["cls"] == "ident" and "error" not in obs["geos"][i] and "error" not in obs["geos"][j] and lossy_wkt(obs, g.geos, i, j):
                 ctx.count("pair_area_ident_no_demand_wkt_dialect_not_read_back_by_pyproj")
+        for c, km in zip(getattr(g, "nonjson", []), getattr(g, "njmeta", [])):
+            ctx.case(("nonjson", json.dumps(c, sort_keys=True)), nontrivial=not km["same"], sample={"key_nonjson": km["cls"], "keyword": c[2], "a": c[3], "b": c[4]})
         for t in getattr(g, "gah", []):
             ctx.case(("gah", json.dumps(t, sort_keys=True)), nontrivial=t["k"] != "np", sample=None)
         for name in ("area_hist", "swath_hist", "stack_hist"):
